@@ -1,4 +1,5 @@
 """C13 — NETWORK_ACK: awaited only when needed, sent once, believed only if received."""
+import re
 from harness.framework import *
 from harness import gen_net, netsession
 from harness.gen_rf import rbytes
@@ -134,6 +135,12 @@ class C13(PropCheck):
                     lossy = t[2] != "-"
                     ack_loss = "A" in t[2]   # a packet whose radio-level ACK is lost *is* received
                     continue
+                if len(t) >= 2 and t[1] == "read" and res != "N" and not res.startswith("exc="):
+                    # `from>to#id:type/reserved:hex` — update() must return a NETWORK_ACK, never queue it
+                    m_ = re.match(r"\d+>\d+#\d+:(\d+)/", res)
+                    if m_ and int(m_.group(1)) == 193:
+                        what = f"op {k}: a NETWORK_ACK frame was handed to the application of {t[0]} ({res})"
+                        break
                 if len(t) < 2 or t[1] not in ("write", "multicast") or len(f) != 4:
                     continue
                 allv = f[1].split(" all=")[1].strip() if " all=" in f[1] else ""
@@ -172,6 +179,10 @@ class C13(PropCheck):
                     if acks:
                         what = (f"op {k}: message {oct(src)}->{oct(dst)} type {typ} over {h} hop(s) caused {len(acks)} NETWORK_ACK frame(s) "
                                 "(only types 65..191 over a route with an intermediate node may)")
+                    elif not lossy_here and r0 == "F" and typ not in CONSUMED:
+                        # awaited only when needed: nothing is due here, so a loss-free write() must not come back False
+                        what = (f"op {k}: loss-free message {oct(src)}->{oct(dst)} type {typ} over {h} hop(s): write() returned F "
+                                "(a NETWORK_ACK that is not due was awaited, or the link verdict was lost)")
                 else:
                     if r0 == "T" and not reached_src:
                         what = f"op {k}: write() {oct(src)}->{oct(dst)} type {typ} returned True but no NETWORK_ACK reached the sender"
